@@ -9,3 +9,5 @@ import BlackIt.Model.Halton
 import BlackIt.Model.Calibrator
 import BlackIt.Drv.Cal
 import BlackIt.Model.Checkpoint
+import BlackIt.Model.RLProtocol
+import BlackIt.Drv.RL
